@@ -80,6 +80,10 @@ func compareFront(cli string, drv *Driver, dir, setup string) CaseReport {
 		// assumption of the covering theorem (Props/Cover.DistinctFields): field names of a struct are distinct
 		diff("facts", "the type table of this input has a struct with two fields of one name (assumption of Props/Cover violated)")
 	}
+	if !model.MethodsApart {
+		// assumption of Props/C09.method_isolated: distinct methods have distinct doc nodes and comment groups
+		diff("facts", "two interface methods of this input share a doc node or comment group (assumption of Props/C09 violated)")
+	}
 	implErr := canonStderr(rep.CLI.Stderr, dir)
 	switch model.Status {
 	case "panic":
